@@ -27,9 +27,17 @@ pub struct Case {
     /// visit every hit of every point (thorough) or at most first/middle/last per point
     #[serde(default)]
     pub all_hits: bool,
+    /// a series of crashes without any completed run in between (each entry selects an early
+    /// guarded point, i.e. one before the run's own records are written)
+    #[serde(default)]
+    pub series: Vec<u16>,
 }
 
 pub fn strategy(kills: usize, enumerate: bool, all_hits: bool) -> impl Strategy<Value = Case> {
+    strategy_series(kills, enumerate, all_hits, 0)
+}
+
+pub fn strategy_series(kills: usize, enumerate: bool, all_hits: bool, series: usize) -> impl Strategy<Value = Case> {
     (
         2usize..=4,
         0usize..=5,
@@ -38,8 +46,10 @@ pub fn strategy(kills: usize, enumerate: bool, all_hits: bool) -> impl Strategy<
         vec(any::<u16>(), 8),
         vec(20u64..=120, 12),
         vec(any::<u16>(), kills),
+        vec(any::<u16>(), if series == 0 { 0..=0 } else { 2..=series }),
     )
-        .prop_map(move |(m, b, checkpoint, layers, picks, sleeps, kills)| Case {
+        .prop_map(move |(m, b, checkpoint, layers, picks, sleeps, kills, series)| Case {
+            series,
             max_retained: m,
             baseline_runs: b.min(m + 1),
             checkpoint,
@@ -302,6 +312,47 @@ pub fn check(case: &Case, w: usize) -> CheckResult {
         let phase = (*k as u64 * 4) >> 16;
         info = info.class(&format!("sigkill-phase-{}", phase));
     }
+    if !case.series.is_empty() {
+        // several crashes in a row, no completed run in between: the state left by one crash is
+        // the state the next invocation starts from
+        let early: Vec<(String, u64)> = points
+            .iter()
+            .filter(|(n, h)| *h == 1 && n != "lock.acquired" && n != "lock.attempt" && !LATE_POINTS.contains(&n.as_str()) && !n.starts_with("tracking.") && !n.starts_with("run.result") && !n.starts_with("run.pointer"))
+            .cloned()
+            .collect();
+        if !early.is_empty() {
+            restore(&env)?;
+            let mut delivered = 0;
+            for (k, sel) in case.series.iter().enumerate() {
+                let (name, hit) = &early[pick(*sel, early.len())];
+                let spec = format!("{}=crash@{}", name, hit);
+                let o = env.mr_env(&vargv, &[("MRV_POINTS", spec.clone())], Duration::from_secs(120));
+                if o.signal != Some(9) {
+                    info = info.class("point-not-reached");
+                    continue;
+                }
+                delivered += 1;
+                crashes += 1;
+                env.kill_groups();
+                let after = observe(&mut env);
+                if after.checkpoint != before.checkpoint || after.result != before.result || after.logs != before.logs {
+                    return viol_obs(
+                        "c13.state.damaged.series",
+                        format!("crash #{} in a row (at {}): checkpoint / result show / log show no longer return the last completed run", k + 1, spec),
+                        json!({"before": {"result": before.result, "logs": before.logs}, "after": {"result": after.result, "logs": after.logs}}),
+                    );
+                }
+            }
+            if delivered > 0 {
+                // and the next run still succeeds
+                let o = env.mr(&vargv);
+                if !o.ok() {
+                    return viol_obs("c13.next.run.fails.series", format!("after {} crashes in a row the next run does not succeed", delivered), o.brief());
+                }
+                info = info.class(&format!("crashes-in-a-row={}", delivered));
+            }
+        }
+    }
     info.nontrivial = case.baseline_runs >= 1 && crashes > 0;
     info = info
         .class_if(case.checkpoint, "with-checkpoint")
@@ -317,7 +368,7 @@ pub fn run(ctx: &mut Ctx) {
     ctx.shrink_budget = Duration::from_secs(20);
     ctx.rule = "max_retained_runs in 2..4, 0..M+1 completed baseline runs, checkpoint present or not, a victim run of 2 commands over 2-3 layered groups with helpers sleeping 20-120 ms. \
 enumeration scenarios: the victim is first executed with the point log to learn every guarded (point, hit#) it reaches, then once per entry (quick tier: first, middle and last hit of each point; thorough: every hit) with `crash@hit` (SIGKILL of itself at that point) from a restored \
-copy of the pre-state; timed scenarios: SIGKILL of the monorail process after a generated fraction of the victim's duration. oracle after each crash: `checkpoint show` unchanged; (`result show`, `log show`) equal to \
+copy of the pre-state; timed scenarios: SIGKILL of the monorail process after a generated fraction of the victim's duration; series scenarios: 2-5 crashes in a row at early guarded points without a completed run in between (state compared after each, then a run must succeed). oracle after each crash: `checkpoint show` unchanged; (`result show`, `log show`) equal to \
 the pre-state, or - only for kills at/after the pointer write, and for timed kills - equal to the completed victim's record; then a fresh run exits 0 and `result show` returns its document. \
 evaluations = scenarios; cli_invocations counts the individual executions. non-trivial = at least one previous completed run and at least one crash delivered; distinct by SHA-256"
         .to_string();
@@ -330,6 +381,8 @@ evaluations = scenarios; cli_invocations counts the individual executions. non-t
     ctx.drive("enumerate-points", || strategy(0, true, all_hits), n, check);
     let n2 = ctx.n(16, 600);
     ctx.drive("timed-sigkill", || strategy(5, false, false), n2, check);
+    let n3 = ctx.n(12, 400);
+    ctx.drive("crashes-in-a-row", || strategy_series(0, false, false, 5), n3, check);
 }
 
 pub fn replay(ctx: &Ctx, label: &str, case: Value) -> Result<(), String> {
